@@ -424,6 +424,46 @@ class LoopMachine(Machine):
             else:
                 raise AnalysisBroken('loop %s: modified set did not stabilise' % lid)
             written_cells = dict(mods)
+            # bounded accumulators: an integer cell that every store of the body sets to "its value at the start of the
+            # iteration plus a constant in [0, c]" (a counter of matches / expired entries) stays within
+            # [entry value, entry value + c * k] at the head of iteration k (induction on k; all stores of the body are in the log)
+            self.acc_bounds = dict(getattr(self, 'acc_bounds', {}))
+            self.acc_bounds.pop(lid, None)
+            accb = {}
+            from . import terms as _terms
+            for (oid, key), (n, ty, terms_) in mods.items():
+                if ty is None or ty.kind != 'int' or oid in smashed or key[0] or oid not in entry.objs or len(terms_) >= 8:
+                    continue
+                atom_ = ('sym', 'hv:%s:%s+%s' % (lid, oid, key[1]), ty.minmax()[0], ty.minmax()[1])
+                try:
+                    init_ = entry.canon(mem.load_scalar(entry, entry.objs[oid].copy(), term_of_lin(Lin(dict(key[0]), key[1])), ty))
+                except Exception:
+                    continue
+                if init_ == UNINIT or init_[0] in ('ptr', 'pset', 'fn'):
+                    continue
+                cmax, okb = 0, True
+                for t_ in terms_:
+                    if t_ is None:
+                        okb = False
+                        break
+                    if t_[0] == 'sym' and t_[1] in _terms.OPAQUE_DEFS:
+                        t_ = _terms.OPAQUE_DEFS[t_[1]]
+                    try:
+                        lt_ = lin_of(t_)
+                    except Exception:
+                        okb = False
+                        break
+                    d1 = lt_.add(lin_of(atom_), -1)
+                    d2 = lt_.add(lin_of(init_), -1)
+                    dc = d1 if d1.is_const() else d2 if d2.is_const() else None
+                    if dc is None or not (0 <= dc.k <= 255):
+                        okb = False
+                        break
+                    cmax = max(cmax, dc.k)
+                if okb and cmax >= 1:
+                    accb[(oid, key)] = (cmax, init_)
+            if accb:
+                self.acc_bounds[lid] = accb
             # cells written only on leaving paths (break/return) are not loop-carried: every
             # continuing path of the most general iteration leaves them as they were
             # A cell changed only on continuing paths that then fail the loop condition (`found = true` in
@@ -920,6 +960,11 @@ class LoopMachine(Machine):
                     h.add_fact(lin_of(val).scale(-1).add(Lin({}, lo)))
                 else:
                     val = ('sym', 'hv:%s:%s+%s' % (lid, oid, key[1]), lo, hi)
+                    ab_ = (getattr(self, 'acc_bounds', {}).get(lid) or {}).get((oid, key)) if induct is not None else None
+                    if ab_ is not None:
+                        cmax_, init_ = ab_
+                        h.add_fact(lin_of(val).add(lin_of(init_), -1).add(Lin({kterm: cmax_}, 0), -1))      # val <= init + cmax * k
+                        h.add_fact(lin_of(init_).add(lin_of(val), -1))                                       # init <= val
                     self.havoc_atoms[(lid, oid, key)] = val
                 mem.kill_range(h, o, key[0], key[1], n)
                 o.cells[key] = (n, val)
